@@ -318,6 +318,23 @@ def check(P, R, modules, scope=None, rules=("T1", "T2", "T3", "T4", "T5", "T6", 
                         continue
                 n += 1
                 R.violation(rule + ".by-position", f.key, src(c)[:60], "the samples of a class are taken as a run of positions (cumulative class counts) instead of by their label: right only when the samples are presented grouped by class in ascending id order, so the result depends on the order of the samples", c.lineno)
+        if "T8" in rules or "T3" in rules:
+            # binary search needs a sorted haystack: np.sort / sorted / np.unique / cumsum / arange produce one, the iteration
+            # order of a set (list(set(y))) or the order labels were given in does not
+            du = du or get_defuse(f, P)
+            from ..dataflow import cone as _cone8
+            for c in [x for x in ast.walk(f.node) if isinstance(x, ast.Call) and isinstance(x.func, ast.Attribute) and x.func.attr == "searchsorted"]:
+                hay = c.args[0] if (isinstance(c.func.value, ast.Name) and c.func.value.id in ("np", "numpy", "da", "numerical_module", "xp")) and c.args else c.func.value
+                try:
+                    ch = _cone8(du, hay, du.stmt_of(c), interproc=False)
+                except Exception:
+                    continue
+                srt = any(isinstance(x, ast.Call) and (x.func.attr if isinstance(x.func, ast.Attribute) else getattr(x.func, "id", "")) in ("sort", "sorted", "unique", "cumsum", "arange", "linspace", "unique_labels", "argsort", "accumulate") for x in ch.nodes)
+                if srt:
+                    R.ok(rule + ".searchsorted", f.key, src(c)[:60], "the array searched is produced by a sort", c.lineno)
+                else:
+                    n += 1
+                    R.violation(rule + ".searchsorted", f.key, src(c)[:60], f"binary search in `{src(hay)[:30]}`, which is not produced by a sort (np.sort / np.unique / sorted): for labels whose order as stored is not ascending (iteration order of a set, negative or large ids) the positions returned are wrong and distinct classes are merged", c.lineno)
         if "T6" in rules:
             for node in indexany_sites(f.node):
                 n += 1
